@@ -215,7 +215,9 @@ def walk_expr(node) -> Iterable[ast.AST]:
 # --------------------------------------------------------------------------------------------- the index
 
 class Index:
-    def __init__(self, pkg_dir: str = None, include_tests: bool = False):
+    def __init__(self, pkg_dir: str = None, include_tests: bool = False, _normalise: bool = True):
+        self._normalise = _normalise
+        self.names_normalised: dict = {}
         self.pkg_dir = pkg_dir or PKG_DIR
         self.modules: dict[str, ModuleInfo] = {}
         self.classes: dict[str, ClassInfo] = {}
@@ -253,6 +255,10 @@ class Index:
                 except SyntaxError as exc:
                     raise AnalysisError(f"cannot parse {path}: {exc}")
                 self.modules[name] = mod
+        if self._normalise and not os.environ.get("SA_NO_CANON"):
+            # E0: consistently renamed private names are read back under their confirmed spelling (sa/canon.py)
+            from .canon import normalise
+            self.names_normalised = normalise({n: m.tree for n, m in self.modules.items()})
         for mod in self.modules.values():
             self._scan_module(mod)
 
